@@ -639,7 +639,7 @@ static void check_quo(u16 x, u16 y, int quo)
     {
         cnt(C_VIOL);
         vf::violation(bsig(B_REMQUO, x, y, "wrong-quotient-bits"),
-                      "remquo(" + hx(x) + ", " + hx(y) + ") stored quo=" + vf::str(quo) + "; the integral quotient of x/y is congruent to " + (neg ? "-" : "") + vf::str(want) +
+                      "remquo(" + hx(x) + ", " + hx(y) + ") stored quo=" + vf::str(quo) + "; the integral quotient of x/y is congruent to " + ((neg && want) ? "-" : "") + vf::str(want) +
                           " modulo 8 (glibc remquo on the exact operands gives " + vf::str(gq) + ")",
                       {"--one", "remquo", hexs(x), hexs(y)});
     }
